@@ -25,10 +25,10 @@ PROPS = {
     assumptions=[A['A2'], A['A6'], A['A7'], A['A9']],
     explanation='every function of fields/fq2.rs verified against Fq[u]/(u^2+2) from its rustc MIR with callees replaced by contracts'),
  'C17': dict(
-    tasks=T('mirvc:specs_tower', 'search:specs_tower'),
+    tasks=T('mirvc:specs_tower', 'search:specs_tower', 'mirvc:specs_fexp', 'search:specs_fexp'),
     trusted_base=[A['A2'], A['A7'], A['A9'], A['L2']],
     assumptions=[A['A2'], A['A6'], A['A7'], A['A9']],
-    explanation='every function of fq4.rs / fq12.rs verified against F_q[w]/(w^12+2) on arbitrary elements'),
+    explanation='every function of fq4.rs / fq12.rs verified against F_q[w]/(w^12+2) on arbitrary elements; Frobenius maps against x^(q^k) with constants recomputed exactly; both final exponentiations by exponent contracts: result = x^e with e = (q^12-1)/r mod q^12-1'),
  'C11': dict(
     tasks=T('mirvc:specs_tower', 'search:specs_tower'),
     trusted_base=[A['A2'], A['A7'], A['A9'], A['L2']],
